@@ -1959,7 +1959,16 @@ def _oracle_spell(case):
                 v.append(("C11/cigar/symbol-table", f"{o!r} -> {o.to_cigar_symbol()!r} -> {align.CigarOp.from_cigar_symbol(o.to_cigar_symbol())!r}"))
     a0 = base.sequences[0].get_alphabet()
     k = len(a0)
-    mat = align.SubstitutionMatrix(a0, a0, (np.arange(k * k).reshape(k, k) % 7 - 3 + (np.arange(k * k).reshape(k, k) % 7 - 3).T).astype(np.int32))
+    mat = align.SubstitutionMatrix(a0, a0, ((np.arange(k * k).reshape(k, k) * 7) % 11 - 4 + 6 * np.eye(k, dtype=int)).astype(np.int32))   # not symmetric
+    if len(base.sequences[0]) and len(base.sequences[1]):
+        try:
+            opt = align.align_optimal(base.sequences[0], base.sequences[1], mat, gap_penalty=(-6, -2), terminal_penalty=True, max_number=1)[0]
+            rescored = align.score(opt, mat, (-6, -2), True)
+            if int(rescored) != int(opt.score):
+                v.append(("C11/helpers/score/differs-from-align_optimal", f"{strs}: align_optimal reports {opt.score} for {opt.trace.tolist()}, "
+                          f"score() of that alignment with the same (asymmetric) matrix gives {rescored}"))
+        except Exception as e:  # noqa: BLE001
+            v.append(("C11/helpers/score/rejected", f"{strs}: score() of an align_optimal result: {type(e).__name__}: {e}"))
     sc = attempt(lambda: align.score(base, mat, (-6, -2), False))
     for nm, gp, tp in (("list", [-6, -2], False), ("np.int64", (np.int64(-6), np.int64(-2)), np.bool_(False)), ("np.int8", (np.int8(-6), np.int8(-2)), 0)):
         checks.append((f"score-gap-{nm}", sc, attempt(lambda: align.score(base, mat, gp, tp))))
